@@ -187,7 +187,7 @@ pub fn run(case: &Case) -> Observed {
         let mut s0 = tr!(Session::begin(&mut conn).await, "begin 0");
         let mut s1 = tr!(Session::begin(&mut conn).await, "begin 1");
         let mut snd0 = tr!(Sender::builder().name("snd0").target("q").attach(&mut s0).await, "attach snd0");
-        let mut rcv0 = tr!(Receiver::builder().name("rcv0").source("q").credit_mode(CreditMode::Manual).attach(&mut s0).await, "attach rcv0");
+        let mut rcv0 = tr!(Receiver::builder().name("rcv0").source("q").credit_mode(CreditMode::Manual).auto_accept(case.at_ms % 2 == 1).attach(&mut s0).await, "attach rcv0");
         let mut snd1 = tr!(Sender::builder().name("snd1").target("q").attach(&mut s1).await, "attach snd1");
         let _ = rcv0.set_credit(5).await;
         obs.alive_tasks_before = metrics.num_alive_tasks();
